@@ -77,6 +77,8 @@ pub struct Shared {
     pub in_cycle: AtomicBool,
     pub hook_count: AtomicUsize,
     pub op_sleep_us: AtomicU64,
+    pub reentrant: AtomicBool,         // free-running: the reporter traces itself now and then
+    pub nrep: AtomicUsize,
     pub nrecs: AtomicUsize,            // records the reporter has been given so far
     pub last_rec_us: AtomicU64,        // when the last non-empty batch arrived
 }
@@ -99,6 +101,8 @@ pub fn shared() -> &'static Shared {
         in_cycle: AtomicBool::new(false),
         hook_count: AtomicUsize::new(0),
         op_sleep_us: AtomicU64::new(0),
+        reentrant: AtomicBool::new(false),
+        nrep: AtomicUsize::new(0),
         nrecs: AtomicUsize::new(0),
         last_rec_us: AtomicU64::new(0),
     })
@@ -334,6 +338,30 @@ impl Reporter for CapturingReporter {
         if !spans.is_empty() {
             shared().nrecs.fetch_add(spans.len(), Ordering::SeqCst);
             shared().last_rec_us.store(mono_us() as u64, Ordering::SeqCst);
+        }
+        // An instrumented reporter (an HTTP client with #[trace] functions, a logger that attaches
+        // events): in free-running mode every fifth non-empty batch of the programs' own records makes
+        // the reporter trace itself, inside report(), on the collector's thread.  Those calls must
+        // return like any others (C07); what they record is not constrained (`tls` marks the events).
+        if shared().free.load(Ordering::SeqCst) && shared().reentrant.load(Ordering::SeqCst) && spans.iter().any(|r| !r.name.starts_with("rr")) {
+            let k = shared().nrep.fetch_add(1, Ordering::SeqCst);
+            if k % 5 == 4 {
+                let (h, l, e) = (format!("rr{k}"), format!("rrl{k}"), format!("rre{k}"));
+                emit(json!({"ev":"call","t":0,"op":"root","tls":true,"h":h,"l":l}));
+                let res = std::panic::catch_unwind(|| {
+                    let root = fastrace::Span::root(h.clone(), fastrace::prelude::SpanContext::new(
+                        fastrace::collector::TraceId(0xeeee_0000 + k as u128), fastrace::collector::SpanId(5)));
+                    let _g = root.set_local_parent();
+                    let _s = fastrace::prelude::LocalSpan::enter_with_local_parent(l.clone());
+                    fastrace::prelude::LocalSpan::add_event(fastrace::prelude::Event::new(e.clone()));
+                    let _ = fastrace::prelude::SpanContext::current_local_parent();
+                });
+                let mut ret = json!({"ev":"ret","t":0,"op":"root","tls":true,"h":h});
+                if res.is_err() {
+                    ret["panic"] = json!("panic inside report()");
+                }
+                emit(ret);
+            }
         }
     }
 }
